@@ -1,0 +1,16 @@
+//go:build verif
+
+package args
+
+// Contracts for the deductive verifier in /verif (govc). Comment-only file.
+
+// argsNode(a): the IPLD map node holding exactly the key/value pairs of a.
+//@ ghost func argsNode(a *Args) ipld.Node
+//@ ghost func argsNodeErr(a *Args) error
+//@
+//@ func (*Args).ToIPLD
+//@   trusted
+//@   requires a != nil
+//@   ensures result1 == argsNodeErr(a)
+//@   ensures result1 == nil ==> result0 == argsNode(a) && result0 != nil
+//@   assigns a.Keys
